@@ -31,6 +31,44 @@ pub proof fn lemma_hdr_layouts()
 {
 }
 
+
+// ---------------------------------------------------------------------------
+// C07 / C12: the information-request constructor for ALL list lengths (the Kani harnesses bound
+// n <= 4): type 1, the given flags, size 8 + 4n, followed by a byte copy of the request array --
+// from the (assumed, C16) contract of new_boxed.
+// ---------------------------------------------------------------------------
+impl HeaderSetSize for HeaderTagHeader {
+    open spec fn spec_set_size(self, n: int) -> Self { HeaderTagHeader { typ: self.typ, flags: self.flags, size: n as u32 } }
+}
+pub mod hctors {
+use super::*;
+use std::boxed::Box;
+broadcast use {super::seqfold::lemma_concat_push, super::seqfold::lemma_concat_empty};
+
+impl InformationRequestHeaderTag {
+//@extract multiboot2-header/src/information_request.rs :: impl InformationRequestHeaderTag :: fn new
+//@  ret r
+//@  rules R2b
+//@  rewrite /slice::from_raw_parts\((\w+)\.cast::<u8>\(\), mem::size_of_val\((\w+)\)\)/ => /bytes_from_raw_parts(\1.cast::<u8>(), mem::size_of_val(\2))/
+//@  rewrite /new_boxed\(header, &\[(\w+)\]\)/ => /{ let parts: [&[u8]; 1] = [\1]; proof { assert(parts@ =~= Seq::<&[u8]>::empty().push(\1)); } new_boxed(header, parts.as_slice()) }/
+//@  prologue proof { lemma_hdr_layouts(); }
+//@  prologue let ghost arg = requests;
+//@  spec:
+//@    requires
+//@        // `requests` is a valid shared slice (type-system guarantee): dereferenceable, 4 bytes per entry
+//@        in_prov(ref_prov(requests), ref_addr(requests) as int, val_size(requests) as int), val_size(requests) == 4 * requests@.len(),
+//@        8 + 4 * requests@.len() <= u32::MAX,
+//@    ensures
+//@        tag_wf(&*r),
+//@        decode::<HeaderTagHeader>(mem_at(ref_prov(&*r), ref_addr(&*r) as int, 8))
+//@            == (HeaderTagHeader { typ: HeaderTagType::InformationRequest, flags: flags, size: (8 + 4 * requests@.len()) as u32 }),
+//@        val_size(&*r) as int == round8(8 + 4 * requests@.len() as int),
+//@        obj_bytes(&*r).subrange(8, 8 + 4 * requests@.len() as int)
+//@            == mem_at(ref_prov(requests), ref_addr(requests) as int, 4 * requests@.len() as int),
+//@end
+}
+} // mod hctors
+
 pub mod hb {
 use super::*;
 use std::boxed::Box;
